@@ -53,6 +53,17 @@ def unpickler_calls(repo: Repo, fn: FuncInfo) -> List[ast.Call]:
             else:
                 # module-level alias of an unpickler (e.g. `_orig = pickle.load`)
                 d = dotted(n.func)
+                if isinstance(n.func, ast.Name) and n.func.id in local:
+                    # a parameter whose default is a real unpickler (`def load(f, unpickle=pickle.loads)`): the default is
+                    # evaluated once, when the function is defined, and is what every ordinary call uses
+                    a = fn.node.args
+                    names = [x.arg for x in a.posonlyargs + a.args]
+                    dmap = dict(zip(names[len(names) - len(a.defaults):], a.defaults))
+                    dmap.update({k.arg: d for k, d in zip(a.kwonlyargs, a.kw_defaults) if d is not None})
+                    dv = dmap.get(n.func.id)
+                    if dv is not None and (repo.resolve_expr(fn.module, dv) or "") in UNPICKLERS:
+                        out.append(n)
+                        continue
                 if isinstance(n.func, ast.Name):
                     # function-local alias: `real = pickle.loads; real(...)`
                     loc = [st.value for st in body_walk(fn.node) if isinstance(st, ast.Assign) and any(isinstance(t, ast.Name) and t.id == n.func.id for t in st.targets)]
@@ -252,6 +263,33 @@ def check_loader(repo: Repo, rep: Report):
         rep.ok("C02.no-lenient-handler", f.qualname, f"{len(handlers)} exception handler(s); none reaches the unpickler or a normal return", f"{file}:{f.line}")
 
 
+def check_parse_handlers(repo: Repo, rep: Report):
+    """'including when analysis itself fails ... nothing named in the pickle has been resolved or called': the parse the checked
+    loader relies on must fail as a whole.  In Pickled.load no exception handler may complete normally or return - a handler that
+    lets a stream which stopped being decodable part-way come back as the opcodes decoded so far hands a prefix of the input to
+    the analysis and then to the real unpickler, which executes that prefix before it fails."""
+    f = repo.functions.get("fickling.fickle.Pickled.load")
+    if f is None:
+        raise AnalysisError("Pickled.load not found (anchor vanished)")
+    g = CFG(f.node)
+    handlers = g.find(lambda n: n.kind == "handler")
+    bad = False
+    for h in handlers:
+        seen, todo = set(), [h.id]
+        while todo:
+            x = todo.pop()
+            if x in seen:
+                continue
+            seen.add(x)
+            todo.extend(m for m, _ in g.succ[x])
+        if g.exit in seen:
+            bad = True
+            t = src(h.ast.type) if h.ast.type is not None else "bare"
+            rep.bad("C02.no-lenient-handler", f.qualname, f"decode-error-swallowed:{t}", f"the `except {t}` handler at line {h.line} of Pickled.load can complete without raising: a stream that stops being decodable part-way is parsed 'successfully' into the opcodes before the damage, analysed as that prefix and handed to the real unpickler, which resolves and calls what the prefix names before it fails", f.file, h.line)
+    if not bad:
+        rep.ok("C02.no-lenient-handler", f.qualname, f"{len(handlers)} exception handler(s) in the parser; every path through them raises", f"{f.file}:{f.line}")
+
+
 def is_checked_loader(repo: Repo, mod, e: ast.AST, scope: Optional[FuncInfo], depth: int = 0) -> Optional[str]:
     """None if `e` denotes the checked loader (or a faithful wrapper); otherwise the reason it does not."""
     if depth > 3:
@@ -388,6 +426,7 @@ def run(rep: Report, tier: str):
     rep.assume("Severity.__le__ is the documented order (discharged by C10.order)")
     rep.assume("Pickled.dumps() is the byte-exact re-serialisation of what was parsed (C06.concat) and check_safety analyses the object it is given (C10/C04)")
     check_loader(repo, rep)
+    check_parse_handlers(repo, rep)
     check_arming(repo, rep)
     # "in every non-returning case nothing named in the pickle has been resolved or called": before the real
     # load only the parser and the analyses run -- C01's who-may-call analysis, re-keyed
